@@ -357,3 +357,140 @@ pub fn has_type(spec: &SpecTable, id: u64, ty: Ty) -> bool {
 }
 
 pub fn _unused(_: &io::RScript) {}
+
+// ---------------------------------------------------------------------------------------------
+// Document shrinking (keeps documents specification-valid: only removals and simplifications)
+// ---------------------------------------------------------------------------------------------
+
+fn node_paths(doc: &[Node], prefix: &mut Vec<usize>, out: &mut Vec<Vec<usize>>) {
+    for (i, n) in doc.iter().enumerate() {
+        prefix.push(i);
+        out.push(prefix.clone());
+        if let enc::Body::Master(cs) = &n.body {
+            node_paths(cs, prefix, out);
+        }
+        prefix.pop();
+    }
+}
+
+fn with_node<R>(doc: &mut Vec<Node>, path: &[usize], f: &mut dyn FnMut(&mut Vec<Node>, usize) -> R) -> R {
+    if path.len() == 1 {
+        f(doc, path[0])
+    } else {
+        match &mut doc[path[0]].body {
+            enc::Body::Master(cs) => with_node(cs, &path[1..], f),
+            _ => unreachable!(),
+        }
+    }
+}
+
+/// Simpler documents: subtrees removed, payloads shrunk, encoding choices reset.
+pub fn shrink_doc(doc: &[Node]) -> Vec<Vec<Node>> {
+    use crate::val::Val;
+    let mut out = Vec::new();
+    let mut paths = Vec::new();
+    node_paths(doc, &mut Vec::new(), &mut paths);
+    // removals, big subtrees first
+    let mut sized: Vec<(usize, Vec<usize>)> = paths
+        .iter()
+        .map(|p| {
+            let mut d = doc.to_vec();
+            let c = with_node(&mut d, p, &mut |v, i| v[i].count());
+            (c, p.clone())
+        })
+        .collect();
+    sized.sort_by(|a, b| b.0.cmp(&a.0));
+    for (_, p) in &sized {
+        let mut d = doc.to_vec();
+        with_node(&mut d, p, &mut |v, i| {
+            v.remove(i);
+        });
+        if !d.is_empty() {
+            out.push(d);
+        }
+    }
+    for p in &paths {
+        let mut d = doc.to_vec();
+        let changed = with_node(&mut d, p, &mut |v, i| {
+            let n = &mut v[i];
+            let mut ch = false;
+            if n.enc != enc::Enc::default() {
+                n.enc = enc::Enc::default();
+                ch = true;
+            }
+            ch
+        });
+        if changed {
+            out.push(d);
+        }
+        let mut d = doc.to_vec();
+        let changed = with_node(&mut d, p, &mut |v, i| {
+            let n = &mut v[i];
+            match &mut n.body {
+                enc::Body::Leaf(Val::U(x)) if *x != 0 => {
+                    *x = 0;
+                    n.enc.pay_len = None;
+                    true
+                }
+                enc::Body::Leaf(Val::I(x)) if *x != 0 => {
+                    *x = 0;
+                    n.enc.pay_len = None;
+                    true
+                }
+                enc::Body::Leaf(Val::F(x)) if *x != 0 => {
+                    *x = 0;
+                    true
+                }
+                enc::Body::Leaf(Val::S(s)) if !s.is_empty() => {
+                    let keep = s.len() / 2;
+                    *s = "a".repeat(keep);
+                    true
+                }
+                enc::Body::Leaf(Val::B(b)) | enc::Body::Leaf(Val::Raw(b)) if !b.is_empty() => {
+                    let keep = b.len() / 2;
+                    *b = vec![0; keep];
+                    true
+                }
+                _ => false,
+            }
+        });
+        if changed && d.iter().all(enc::encodable) {
+            out.push(d);
+        }
+    }
+    out.retain(|d| d.iter().all(enc::encodable));
+    out
+}
+
+/// Specification entries that a document does not use (directly or as a declared parent) removed.
+pub fn prune_spec(spec: &SpecTable, doc: &[Node], keep_extra: &[u64]) -> Option<SpecTable> {
+    if spec.kind != crate::spec::SpecKind::Dyn {
+        return None;
+    }
+    let mut used: Vec<u64> = keep_extra.to_vec();
+    for n in doc {
+        n.visit(&mut |x, _| used.push(x.id), 0);
+    }
+    let mut grow = true;
+    while grow {
+        grow = false;
+        for e in &spec.elems {
+            if used.contains(&e.id) {
+                for p in &e.path {
+                    if let ebml_iterable::specs::PathPart::Id(x) = p {
+                        if !used.contains(x) {
+                            used.push(*x);
+                            grow = true;
+                        }
+                    }
+                }
+            }
+        }
+    }
+    let keep: Vec<_> = spec.elems.iter().filter(|e| used.contains(&e.id)).cloned().collect();
+    if keep.len() < spec.elems.len() && !keep.is_empty() {
+        Some(SpecTable { kind: spec.kind.clone(), elems: keep })
+    } else {
+        None
+    }
+}
